@@ -423,6 +423,7 @@ Definition exec_instr (c : cfg) (m : module) (s0 : state) (fr : frame) (frs : li
   | 139 => let '(v, k1) := pop k in
            SNext (set_stack s (VStr (match v with
                                      | VStr x => x | VInt z => dec_of_Z z | VBool b => if b then str_true else str_false
+                                     | VEnum z => dec_of_Z z
                                      | _ => [] end) :: k1))
   | 140 => let '(v, k1) := pop k in SNext (set_stack s (VBool (tag_of v =? Z.of_N a0)%Z :: k1))
   | 144 => (* for (int16_t i = (int16_t)(capture_count - 1); i >= 0; i--) captures[i] = stack_pop() *)
